@@ -457,6 +457,31 @@ def run(scenario, world):
                     world, step, h)
         elif k == 'observe':
             pass
+        elif k == 'bad_call':
+            # a configuration call with an invalid argument must raise and
+            # leave the model as it was (shown by what follows)
+            how = op['how']
+            if how in ('compartment', 'amount_var') and (
+                    ref.cls != 'pkpd' or ref.reduced):
+                continue
+            if how == 'compartment':
+                r = call(real.set_administration, 'no_such_compartment')
+            elif how == 'amount_var':
+                r = call(real.set_administration, op['compartment'],
+                         amount_var='no_such_variable')
+            elif how == 'output':
+                r = call(real.set_outputs, ['no.such_output'])
+            else:
+                r = call(real.enable_sensitivities, True,
+                         ['no such parameter'])
+            if not is_exc(r):
+                # accepted after all: the net configuration is unknown to
+                # the reference from here on
+                world.probe('invalid_call_accepted')
+                return {'triples': triples, 'n_exec': n_exec,
+                        'extra': {'configurations_reached': sorted(states)}}
+            world.probe('invalid_call_rejected')
+            observe(real, ref, scenario['probe'], world, step, h)
         elif k == 'copy':
             new_h = op['as']
             if new_h in objs:
@@ -775,6 +800,22 @@ def generate(rng, index, tier):
                 op['fault'] = {'at_run': 0, 'kind': rng.choice(
                     ['fail', 'fail', 'nan'])}
         ops.append(op)
+        if forced is None and rng.random() < 0.06:
+            # an invalid call somewhere in the history, often followed by
+            # something that rebuilds the simulator
+            bad = {'op': 'bad_call', 'on': h, 'how': rng.choice(
+                ['compartment', 'amount_var', 'output', 'sens_name'])}
+            if dosable:
+                bad['compartment'] = rng.choice(dosable)[0]
+            elif bad['how'] == 'amount_var':
+                bad['how'] = 'output'
+            ops.append(bad)
+            if rng.random() < 0.6:
+                ops.append({'op': 'enable_sensitivities', 'on': h,
+                            'enabled': True})
+                ops.append({'op': 'simulate', 'on': h,
+                            'theta': gen_theta(rng, info),
+                            'times': gen_times(rng)})
     return {'property': PROP, 'recipes': [recipe], 'ops': ops,
             'probe': {'theta': gen_theta(rng, info), 'times': gen_times(rng)},
             'profile': {'kinds': sorted(kinds), 'faults': faults_on}}
